@@ -55,6 +55,10 @@
                                                  TraversalQueue::push_covered ignores a lower max cut), after which the
                                                  segments below are traversed as uncovered too; `inseg_ok` is a
                                                  storage-level observation logged by the engine
+     C20:cache-...             a peer cache seen at the start (requester's) or the end (responder's) of a real
+                               session holds a foreign id, more than ten or duplicate entries, an entry its
+                               owner has not committed, an entry the peer does not hold, or (cases marked
+                               `deep`) an entry that is an ancestor of another (reported by check C20)
      C16:commit                commit failed, or the committed set is not old + received
      C16:not-converged         the session loop stopped with commands missing
           :req-heads>100                         ... after sessions of the wide-requester class (livelock)
@@ -67,9 +71,10 @@ VARIABLES i,          \* next line
           held,       \* [A |-> received into a transaction that is still open, B |-> ...]
           sess,       \* the open session (record) or NoSess
           skip,       \* the case already has a verdict
+          deep,       \* the case asks for the expensive cache checks (antichain)
           known       \* key of a known no-progress class seen in this case ("" if none)
 
-vars == <<i, par, have, held, sess, skip, known>>
+vars == <<i, par, have, held, sess, skip, deep, known>>
 
 (* SyncAbs supplies the property's predicates; its state is not used here *)
 SA == INSTANCE SyncAbs WITH
@@ -97,6 +102,7 @@ Init == /\ i = 1
         /\ held = [A |-> {}, B |-> {}]
         /\ sess = NoSess
         /\ skip = FALSE
+        /\ deep = FALSE
         /\ known = ""
         /\ TLCSet(1, 0) /\ TLCSet(2, 0)
 
@@ -109,20 +115,12 @@ Reset(ev) ==
   /\ held' = [A |-> {}, B |-> {}]
   /\ sess' = NoSess
   /\ skip' = FALSE
+  /\ deep' = ev.deep
   /\ known' = ""
 
 Fail(key) == /\ Bad(key)
              /\ skip' = TRUE
-             /\ UNCHANGED <<par, have, held, sess, known>>
-
-Sample(ev) ==
-  LET s == SeqSet(ev.sample) IN
-  IF sess.open THEN Fail("C17:session-error:harness:sample-inside-session")
-  ELSE IF ~(s \subseteq Holds(ev.req)) \/ Len(ev.sample) > 100 THEN Fail("C16:sample")
-  ELSE /\ sess' = [open |-> TRUE, req |-> ev.req, resp |-> ev.resp, idx |-> 0, recv |-> {},
-                   sample |-> s, nsample |-> Len(ev.sample), heads |-> ev.heads, reqheads |-> SeqSet(ev.head_ix),
-                   oneshot |-> ev.oneshot, ended |-> FALSE]
-       /\ UNCHANGED <<par, have, held, skip, known>>
+             /\ UNCHANGED <<par, have, held, sess, deep, known>>
 
 (* is command c an ancestor-or-self of a sample address the responder can locate?  (bounded walk
    downwards is not available in `par`; c is covered iff some located sample address reaches it,
@@ -131,6 +129,29 @@ RECURSIVE UpClosure(_, _)
 UpClosure(frontier, seen) ==
   IF frontier = {} THEN seen
   ELSE LET nxt == (UNION {par[c] : c \in frontier}) \ seen IN UpClosure(nxt, seen \cup nxt)
+
+(* C20 at the system level: what a peer cache holds after real sessions.  `mine` = the owner's
+   committed commands, `theirs` = what the peer holds *)
+CacheKey(c, mine, theirs) ==
+  LET cs == SeqSet(c) IN
+  IF 0 \in cs THEN "C20:cache-foreign-entry"
+  ELSE IF Len(c) > 10 \/ Cardinality(cs) # Len(c) THEN "C20:cache-over-capacity"
+  ELSE IF ~(cs \subseteq mine) THEN "C20:cache-uncommitted-entry"
+  ELSE IF ~(cs \subseteq theirs) THEN "C20:cache-peer-lacks-entry"
+  ELSE IF deep /\ \E a \in cs : a \in UpClosure({b \in cs : b # a}, {}) THEN "C20:cache-not-antichain"
+  ELSE ""
+
+Sample(ev) ==
+  LET s == SeqSet(ev.sample)
+      ck == CacheKey(ev.cache, have[ev.req], Holds(ev.resp))
+  IN
+  IF sess.open THEN Fail("C17:session-error:harness:sample-inside-session")
+  ELSE IF ~(s \subseteq Holds(ev.req)) \/ Len(ev.sample) > 100 THEN Fail("C16:sample")
+  ELSE IF ck # "" THEN Fail(ck)
+  ELSE /\ sess' = [open |-> TRUE, req |-> ev.req, resp |-> ev.resp, idx |-> 0, recv |-> {},
+                   sample |-> s, nsample |-> Len(ev.sample), heads |-> ev.heads, reqheads |-> SeqSet(ev.head_ix),
+                   oneshot |-> ev.oneshot, push |-> ev.push, ended |-> FALSE]
+       /\ UNCHANGED <<par, have, held, skip, deep, known>>
 
 Response(ev) ==
   LET req == sess.req
@@ -145,13 +166,13 @@ Response(ev) ==
   ELSE IF ~SA!ParentsFirst(par, before, cmds) THEN Fail("C17:parents-first")
   ELSE IF ev.add # "ok" THEN Fail("C17:add-commands:" \o ev.add)
   ELSE /\ sess' = [sess EXCEPT !.idx = @ + 1, !.recv = @ \cup SeqSet(cmds)]
-       /\ UNCHANGED <<par, have, held, skip, known>>
+       /\ UNCHANGED <<par, have, held, skip, deep, known>>
 
 End(ev) ==
   IF ~sess.open \/ sess.ended THEN Fail("C17:session-error:harness:end-outside-session")
   ELSE IF ev.max_index # sess.idx THEN Fail("C17:end-index")
   ELSE /\ sess' = [sess EXCEPT !.ended = TRUE]
-       /\ UNCHANGED <<par, have, held, skip, known>>
+       /\ UNCHANGED <<par, have, held, skip, deep, known>>
 
 (* classification of a session without progress *)
 NoProgressKey(ev) ==
@@ -173,9 +194,12 @@ NoProgressKey(ev) ==
      ELSE "C16:no-progress"
 
 Close(ev) ==
+  LET rk == IF sess.open THEN CacheKey(ev.resp_cache, have[sess.resp], Holds(sess.req) \cup sess.recv) ELSE "" IN
   IF ~sess.open THEN Fail("C17:session-error:harness:close-outside-session")
   ELSE IF ~sess.oneshot /\ ~sess.ended THEN Fail("C17:no-end")
-  ELSE IF ~SA!ProgressOK(Holds(sess.req), have[sess.resp], sess.recv)
+  ELSE IF rk # "" THEN Fail(rk)
+  \* a push (subscribe + push exchange) is not a session A requests; C16's progress clause does not apply
+  ELSE IF ~sess.push /\ ~SA!ProgressOK(Holds(sess.req), have[sess.resp], sess.recv)
        THEN /\ Bad(NoProgressKey(ev))
             \* the known classes only delay (or, for wide requesters, prevent) convergence: keep validating
             /\ known' = (IF NoProgressKey(ev) = "C16:no-progress:req-heads>100" \/ known = "C16:no-progress:req-heads>100"
@@ -183,10 +207,10 @@ Close(ev) ==
             /\ held' = [held EXCEPT ![sess.req] = @ \cup sess.recv]
             /\ sess' = NoSess
             /\ skip' = (NoProgressKey(ev) = "C16:no-progress")
-            /\ UNCHANGED <<par, have>>
+            /\ UNCHANGED <<par, have, deep>>
        ELSE /\ held' = [held EXCEPT ![sess.req] = @ \cup sess.recv]
             /\ sess' = NoSess
-            /\ UNCHANGED <<par, have, skip, known>>
+            /\ UNCHANGED <<par, have, skip, deep, known>>
 
 Commit(ev) ==
   LET r == ev.who IN
@@ -194,16 +218,16 @@ Commit(ev) ==
   ELSE IF ev.ok # "ok" \/ SeqSet(ev.walk) # Holds(r) THEN Fail("C16:commit")
   ELSE /\ have' = [have EXCEPT ![r] = Holds(r)]
        /\ held' = [held EXCEPT ![r] = {}]
-       /\ UNCHANGED <<par, sess, skip, known>>
+       /\ UNCHANGED <<par, sess, skip, deep, known>>
 
 Converge(ev) ==
-  IF have[ev.resp] \subseteq have[ev.req] THEN UNCHANGED <<par, have, held, sess, skip, known>>
+  IF have[ev.resp] \subseteq have[ev.req] THEN UNCHANGED <<par, have, held, sess, skip, deep, known>>
   \* a requester with more heads than the sample limit may never converge (livelock, DESIGN 7.6 a);
   \* after the duplicate-only classes eventual delivery must still hold
   ELSE Fail(IF known = "C16:no-progress:req-heads>100" THEN "C16:not-converged:req-heads>100" ELSE "C16:not-converged")
 
 Final(ev) ==
-  IF ev.heads_equal /\ ev.sets_equal /\ have.A = have.B THEN UNCHANGED <<par, have, held, sess, skip, known>>
+  IF ev.heads_equal /\ ev.sets_equal /\ have.A = have.B THEN UNCHANGED <<par, have, held, sess, skip, deep, known>>
   ELSE Fail("C16:pingpong-diverged")
 
 Error(ev) == Fail("C17:session-error:" \o ev.who \o ":" \o ev.what)
@@ -213,7 +237,7 @@ Step ==
   /\ i' = i + 1
   /\ LET ev == Rec[i] IN
        IF ev.e = "reset" THEN Reset(ev)
-       ELSE IF skip THEN UNCHANGED <<par, have, held, sess, skip, known>>
+       ELSE IF skip THEN UNCHANGED <<par, have, held, sess, skip, deep, known>>
        ELSE CASE ev.e = "sample"   -> Sample(ev)
               [] ev.e = "response" -> Response(ev)
               [] ev.e = "end"      -> End(ev)
